@@ -42,6 +42,7 @@ Inductive plabel :=
 | PDo (e : pev) (a : Z) (busy : bool)       (* action a's Do is entered with e *)
 | PPropagate (e : pev) (next : Z)           (* action next-1, inside Do, calls Propagate(e) *)
 | PSpawn (parent : pev) (n : Z)             (* action, inside Do, calls Spawn(parent, n children) *)
+| PSkipTo (e : pev) (idx : Z)                 (* the actions from the event's current index up to idx-1 did not match it (doActions: `continue`) *)
 | PPush (e : pev) (idx : Z)                   (* Spawn, from inside Do: a child (kind 1) or a time-out for busy action idx enters the chain at idx *)
 | PResult (e : pev) (a : Z) (r : pres)      (* Do returned r *)
 | POut (e : pev).                            (* the event is handed to the output *)
@@ -116,6 +117,22 @@ Definition pstep (s : pst) (l : plabel) : option pst :=
                   | InDo => if pev_eqb parent (fev f) || (pseq parent =? pseq (fev f)) then Some s else None
                   | _ => None
                   end
+      | [] => None
+      end
+  | PSkipTo e idx =>
+      (* P6: the match conditions of an action are consulted only while it holds nothing
+         (`if !p.busyActions[index] && !event.IsTimeoutKind()`): an event can skip an action only if that action is idle *)
+      match stack s with
+      | f :: r =>
+          match fph f with
+          | BeforeDo =>
+              if pev_eqb e (fev f) && (fidx f <? idx) && (idx <=? nact s) && negb (pkind e =? 3) &&
+                 negb (existsb (fun p => (fidx f <=? fst p) && (fst p <? idx)) (held s))
+              then Some (set_stack s ((if idx <? nact s then {| fev := fev f; fidx := idx; fph := BeforeDo |}
+                                       else {| fev := fev f; fidx := idx - 1; fph := MustOut |}) :: r))
+              else None
+          | _ => None
+          end
       | [] => None
       end
   | PPush e idx =>
